@@ -491,3 +491,108 @@ func VerifC13_LongLists() {
 	})
 	_ = db.Close()
 }
+
+// VerifC13_DefaultedReadsMappedCheckerCopy: (1) the defaulting getters return
+// the stored value when one is stored (also the empty string / zero / false)
+// and the default exactly when the field is null or absent; (2) a mapped
+// field checker restricts writes by the mapped name; (3) TypedBucket.Copy
+// reproduces scalars, nulls and nested buckets under the filter it is given.
+func VerifC13_DefaultedReadsMappedCheckerCopy() {
+	kind := verifrt.Choose("stored", 3) // 0 absent, 1 null, 2 value
+	s, ds := verifrt.StringUpTo("s", 1), verifrt.StringUpTo("default.s", 1)
+	i64, di64 := verifrt.Int64("i64"), verifrt.Int64("default.i64")
+	i32, di32 := verifrt.Int32("i32"), verifrt.Int32("default.i32")
+	b, db_ := verifrt.Bool("b"), verifrt.Bool("default.b")
+	t, dt := verifrt.TimeUTC("t"), time.Date(2001, 2, 3, 4, 5, 6, 7, time.UTC)
+	selX, selB := verifrt.Bool("select.x"), verifrt.Bool("select.b")
+	copyNested, copyS := verifrt.Bool("copy.nested"), verifrt.Bool("copy.s")
+	base := MapFieldChecker{}
+	if selX {
+		base["x"] = struct{}{}
+	}
+	if selB {
+		base["mb"] = struct{}{}
+	}
+	mapped := NewMappedFieldChecker(base, map[string]string{"ma": "x"})
+	db := verifrt.OpenDB()
+	err := db.Update(func(tx *bbolt.Tx) error {
+		bk := GetOrCreatePath(tx, "root", "e")
+		switch kind {
+		case 1:
+			bk.SetNil("s")
+			bk.SetNil("i64")
+			bk.SetNil("i32")
+			bk.SetNil("b")
+			bk.SetTimeP("t", nil, nil)
+		case 2:
+			bk.SetString("s", s, nil).SetInt64("i64", i64, nil).SetInt32("i32", i32, nil).SetBool("b", b, nil).SetTime("t", t, nil)
+		}
+		bk.SetString("ma", "new", mapped).SetString("mb", "new", mapped).SetString("x", "new", mapped)
+		n := bk.GetOrCreateBucket("nested")
+		n.SetInt64("deep", i64, nil).SetNil("deepnil")
+		n.GetOrCreateBucket("inner").SetString("leaf", s, nil)
+		if bk.GetError() != nil {
+			return bk.GetError()
+		}
+		dst := GetOrCreatePath(tx, "root", "copy")
+		return dst.Copy(bk, func(path []string) bool {
+			if path[0] == "nested" {
+				return copyNested
+			}
+			if path[0] == "s" {
+				return copyS
+			}
+			return true
+		})
+	})
+	verifrt.Assert(err == nil, "C13 writes and copy succeed")
+	_ = db.View(func(tx *bbolt.Tx) error {
+		bk := Path(tx, "root", "e")
+		if kind == 2 {
+			verifrt.Assert(bk.GetStringWithDefault("s", ds) == s, "C13 defaulting string getter returns the stored value")
+			verifrt.Assert(bk.GetInt64WithDefault("i64", di64) == i64, "C13 defaulting int64 getter returns the stored value")
+			verifrt.Assert(bk.GetInt32WithDefault("i32", di32) == i32, "C13 defaulting int32 getter returns the stored value")
+			verifrt.Assert(bk.GetInt64WithDefault("i32", di64) == int64(i32), "C13 defaulting int64 getter widens a stored int32")
+			verifrt.Assert(bk.GetBoolWithDefault("b", db_) == b, "C13 defaulting bool getter returns the stored value")
+			verifrt.Assert(bk.GetTimeOrDefault("t", dt).Equal(t), "C13 defaulting time getter returns the stored instant")
+		} else {
+			verifrt.Assert(bk.GetStringWithDefault("s", ds) == ds, "C13 defaulting string getter returns the default for null / absent")
+			verifrt.Assert(bk.GetInt64WithDefault("i64", di64) == di64, "C13 defaulting int64 getter returns the default for null / absent")
+			verifrt.Assert(bk.GetInt32WithDefault("i32", di32) == di32, "C13 defaulting int32 getter returns the default for null / absent")
+			verifrt.Assert(bk.GetBoolWithDefault("b", db_) == db_, "C13 defaulting bool getter returns the default for null / absent")
+			verifrt.Assert(bk.GetTimeOrDefault("t", dt).Equal(dt), "C13 defaulting time getter returns the default for null / absent")
+		}
+		verifrt.Assert((bk.GetString("ma") != nil) == selX, "C13 mapped checker: a mapped field is written iff its mapped name is selected")
+		verifrt.Assert((bk.GetString("mb") != nil) == selB, "C13 mapped checker: an unmapped field is written iff its own name is selected")
+		verifrt.Assert((bk.GetString("x") != nil) == selX, "C13 mapped checker: the mapped-to name itself follows the base checker")
+
+		cp := Path(tx, "root", "copy")
+		verifrt.Assert(cp != nil, "C13 copy target exists")
+		gs := cp.GetString("s")
+		if kind == 2 && copyS {
+			verifrt.Assert(gs != nil && *gs == s, "C13 copy reproduces a string")
+		} else {
+			verifrt.Assert(gs == nil, "C13 copy leaves out filtered / absent / null strings as null")
+		}
+		gi, gi3, gb, gt := cp.GetInt64("i64"), cp.GetInt32("i32"), cp.GetBool("b"), cp.GetTime("t")
+		if kind == 2 {
+			verifrt.Assert(gi != nil && *gi == i64 && gi3 != nil && *gi3 == i32 && gb != nil && *gb == b && gt != nil && gt.Equal(t), "C13 copy reproduces int64, int32, bool and time")
+		} else {
+			verifrt.Assert(gi == nil && gi3 == nil && gb == nil && gt == nil, "C13 copy keeps null / absent fields null")
+		}
+		nb := cp.GetBucket("nested")
+		if copyNested {
+			verifrt.Assert(nb != nil, "C13 copy reproduces a nested bucket")
+			d := nb.GetInt64("deep")
+			verifrt.Assert(d != nil && *d == i64 && nb.GetInt64("deepnil") == nil, "C13 copy reproduces nested values")
+			in := nb.GetBucket("inner")
+			verifrt.Assert(in != nil, "C13 copy reproduces a bucket two levels down")
+			l := in.GetString("leaf")
+			verifrt.Assert(l != nil && *l == s, "C13 copy reproduces a value two levels down")
+		} else {
+			verifrt.Assert(nb == nil, "C13 copy leaves out a filtered bucket")
+		}
+		return nil
+	})
+	_ = db.Close()
+}
